@@ -161,9 +161,9 @@ def a85Fin (L n : Nat) (g : List Nat) : Res (List Nat) :=
   else
     match a85Value (g ++ List.replicate (5 - g.length) 117) with
     | .ok v =>
-      let out := (be4 v).take (g.length - 1)
-      -- `push_bounded` for each byte: fails iff the last index reaches the limit
-      if n + out.length > L then .err .decode else .ok out
+      -- `push_bounded` for each of the `g.length - 1` bytes: fails iff the last index reaches the limit
+      if n + ((be4 v).take (g.length - 1)).length > L then .err .decode
+      else .ok ((be4 v).take (g.length - 1))
     | .err e => .err e
     | .panic p => .panic p
     | .ext w => .ext w
@@ -179,14 +179,14 @@ def a85Go (L : Nat) : Nat → List Nat → List Nat → Res (List Nat)
     else if c = 122 ∧ g.isEmpty then
       if 4 > L - n then .err .decode else (a85Go L (n + 4) [] rest).pre [0, 0, 0, 0]
     else if 33 ≤ c ∧ c ≤ 117 then
-      let g' := g ++ [c]
-      if g'.length = 5 then
-        match a85Value g' with
+      -- `group.push(c); if group.len() == 5 { … }`
+      if (g ++ [c]).length = 5 then
+        match a85Value (g ++ [c]) with
         | .ok v => if 4 > L - n then .err .decode else (a85Go L (n + 4) [] rest).pre (be4 v)
         | .err e => .err e
         | .panic p => .panic p
         | .ext w => .ext w
-      else a85Go L n g' rest
+      else a85Go L n (g ++ [c]) rest
     else .err .decode
 
 /-- "Skip optional <~ prefix" — a lone `<` is kept as data but the byte after it is consumed -/
